@@ -258,7 +258,7 @@ def gen_nest(rng, depth, ids):
     tup = rng.random() < .25
     names = tuple(rng.sample(['x', 'y', 'z', 'w'], 2)) if tup else (rng.choice(NAMES),)
     kind = rng.choice(['list', 'tuple', 'gen', 'iter', 'range', 'none', 'str', 'userlist', 'sizedgen']) if not tup else rng.choice(
-        ['pairs', 'dictitems', 'genpairs', 'none', 'userdictitems', 'sizedgenpairs'])
+        ['pairs', 'dictitems', 'genpairs', 'none', 'userdictitems', 'sizedgenpairs', 'dictpairkeys', 'dictstrkeys'])
     n = rng.choice([0, 1, 2, 3])
     return Loop(names, kind, n, kids, rng.choice(['tal', 'span']), rng.choice([0, 0, 0, 1, 2, 3, 4]))
 
@@ -294,6 +294,11 @@ def make_iterable(loop, uid):
         return (('%s%d' % (uid, i), i) for i in range(n))
     if k == 'dictitems':
         return {'%s%d' % (uid, i): i for i in range(n)}.items()
+    if k == 'dictpairkeys':
+        # iterating a mapping gives its keys: here each key is a pair (the values play no part)
+        return {('%s%d' % (uid, i), i): 'value-%d' % i for i in range(n)}
+    if k == 'dictstrkeys':
+        return {'%s%d' % ('ab'[i % 2], i): 'value-%d' % i for i in range(n)}       # two-character keys unpack into two names
 
 
 def probe(single_in_scope):
